@@ -262,6 +262,19 @@ func (c *Ctx) c04Sibling(fo *FO) {
 			r.Unknown("R04.3", cons, err.Error())
 			return
 		}
+		// "a later Get is able to build again": the failure cache speaks only through a successful read (the cached failure). A failed
+		// read of it — the entry expired (its FailedUpdateTTL is over: that IS the moment to build again), is missing, or the failure
+		// cache itself is broken — does not end the Get
+		if len(p.Ret) == 2 && p.Ret[1] != nil {
+			for _, ev := range p.Events {
+				if ev.Kind == pw.EvCall && ev.Role == "ErrorsRead" && len(ev.Results) == 2 && aliasesErr(p.Ret[1], ev.Results[1]) {
+					if isNil, known := p.NilFact(p.Ret[1]); !known || !isNil {
+						d, t := c.pathDetail(fo, p, "Get returns the error of the failure-cache lookup itself (expired / missing failure entry) instead of going on to build")
+						r.Bad("R04.6", cons, "failure-cache-read-error-returned", c.Pos(p.RetPos), d, t)
+					}
+				}
+			}
+		}
 		ls := Locksets(p.Events, nil)
 		check := func(evs []*pw.Event, ls []Held, spawned bool) {
 			for i, ev := range evs {
